@@ -71,20 +71,25 @@ func VerifGenFullStackEmbedded() {
 		return nil, oaerrors.Unauthenticated("x")
 	}
 	called := false
+	which := ""
 	var got interface{}
 	api.ListThingsHandler = operations.ListThingsHandlerFunc(func(p operations.ListThingsParams, pr interface{}) middleware.Responder {
+		which = "listThings"
 		called, got = true, pr
 		return middleware.NotImplemented("x")
 	})
 	api.DropThingsHandler = operations.DropThingsHandlerFunc(func(p operations.DropThingsParams, pr interface{}) middleware.Responder {
+		which = "dropThings"
 		called, got = true, pr
 		return middleware.NotImplemented("x")
 	})
 	api.AdminThingsHandler = operations.AdminThingsHandlerFunc(func(p operations.AdminThingsParams, pr interface{}) middleware.Responder {
+		which = "adminThings"
 		called, got = true, pr
 		return middleware.NotImplemented("x")
 	})
 	api.OpenThingHandler = operations.OpenThingHandlerFunc(func(p operations.OpenThingParams) middleware.Responder {
+		which = "openThing"
 		called, got = true, nil
 		return middleware.NotImplemented("x")
 	})
@@ -148,6 +153,9 @@ func VerifGenFullStackEmbedded() {
 		if vNot(authorized) {
 			vAssert(rec.code == 401 || rec.code == 403, "a request satisfying no alternative is not answered 401/403")
 		}
+	}
+	if called {
+		vAssert(which == []string{"listThings", "dropThings", "openThing", "adminThings"}[op], "the request is routed to the handler of another operation")
 	}
 	if called && op != 2 {
 		vAssert(got == "alice", "the principal handed to the handler is not the authenticator's")
